@@ -6,7 +6,6 @@ import (
 
 	"github.com/go-git/go-git/v6/plumbing"
 	"github.com/go-git/go-git/v6/plumbing/cache"
-	"github.com/go-git/go-git/v6/plumbing/format/reflog"
 	"github.com/go-git/go-git/v6/storage"
 	"github.com/go-git/go-git/v6/storage/filesystem"
 	"github.com/go-git/go-git/v6/storage/memory"
@@ -17,107 +16,190 @@ import (
 )
 
 func init() {
-	fw.Register(&fw.Check{ID: "C17", Level: "model_checking", Run: runC17, QuickBudget: 90, ThoroughBudget: 1200})
+	fw.Register(&fw.Check{ID: "C17", Level: "model_checking", Run: runC17, QuickBudget: 600, ThoroughBudget: 1400})
 }
 
 type c17Backend struct {
-	name string
-	mk   func() storage.Storer
+	name   string
+	format string
+	depth  int
+	// mk returns the instance under test and, for persistent backends, a
+	// function opening a fresh default-option instance over the same state
+	mk func() (storage.Storer, func() storage.Storer)
 }
 
 type c17Sys struct {
-	st    storage.Storer
-	model *absRepo
-	ops   []repoOp
-	hasRL bool
+	u      *absUni
+	st     storage.Storer
+	reopen func() storage.Storer
+	model  *absRepo
+	ops    []repoOp
+	hasRL  bool
+}
+
+const c17ModuleRef = "refs/heads/x"
+
+// c17Module observes the module storage "m": the reference the menu writes there.
+func c17Module(u *absUni, st storage.Storer) string {
+	m, err := st.Module("m")
+	if err != nil {
+		return "module m " + absErrKind(err)
+	}
+	r, err := m.Reference(c17ModuleRef)
+	if err != nil {
+		return "module m x=" + absErrKind(err)
+	}
+	return "module m x=" + u.hashName(r.Hash())
+}
+
+func c17ExpectModule(m *absRepo) string {
+	if m.modRef == "" {
+		return "module m x=ref-not-found"
+	}
+	return "module m x=" + m.modRef
 }
 
 func (s *c17Sys) Apply(k int) (string, string) { return s.ops[k].do(s.st, s.model) }
 func (s *c17Sys) Observe() (string, string) {
-	return expectRepo(s.model, "state", s.hasRL), observeRepo(s.st, "state")
+	e := expectRepo(s.model, "state", s.hasRL) + "\n" + c17ExpectModule(s.model)
+	g := observeRepo(s.u, s.st, "state") + "\n" + c17Module(s.u, s.st)
+	if s.reopen != nil && e == g {
+		// what the instance reports must also be what it persisted
+		r := s.reopen()
+		e += "\n" + expectRepo(s.model, "state seen by a fresh instance", s.hasRL) + "\n" + c17ExpectModule(s.model)
+		g += "\n" + observeRepo(s.u, r, "state seen by a fresh instance") + "\n" + c17Module(s.u, r)
+		if c, ok := r.(interface{ Close() error }); ok {
+			c.Close()
+		}
+	}
+	return e, g
 }
-func (s *c17Sys) Key() string { return expectRepo(s.model, "", true) }
+func (s *c17Sys) Key() string { return expectRepo(s.model, "", true) + c17ExpectModule(s.model) }
 func (s *c17Sys) Close() {
 	if c, ok := s.st.(interface{ Close() error }); ok {
 		c.Close()
 	}
 }
 
-func runC17(c *fw.Ctx) {
-	depth := c.Pick(3, 4)
-	c.Bound("depth", depth)
-	ops := append(repoOps(), repoOp{"PackRefs", func(st storage.Storer, m *absRepo) (string, string) {
-		p, ok := st.(interface{ PackRefs() error })
-		if !ok {
+// c17Ops is the shared menu plus the calls only C17 compares.
+func c17Ops(u *absUni) []repoOp {
+	return append(repoOps(u, "state"),
+		repoOp{"PackRefs", func(st storage.Storer, m *absRepo) (string, string) {
+			if err := st.PackRefs(); err != nil {
+				return "ok", "error(" + normErr(err) + ")"
+			}
 			return "ok", "ok"
-		}
-		if err := p.PackRefs(); err != nil {
-			return "ok", "error(" + normErr(err) + ")"
-		}
-		return "ok", "ok"
-	}})
+		}},
+		repoOp{"Module(m).SetRef(x,h1)", func(st storage.Storer, m *absRepo) (string, string) {
+			ms, err := st.Module("m")
+			if err != nil {
+				return "ok", "error(" + normErr(err) + ")"
+			}
+			err = ms.SetReference(plumbing.NewHashReference(c17ModuleRef, u.h["h1"]))
+			m.modRef = "h1"
+			if err != nil {
+				return "ok", "error(" + normErr(err) + ")"
+			}
+			return "ok", "ok"
+		}})
+}
+
+func runC17(c *fw.Ctx) {
+	depth := absDevDepth(c, c.Pick(3, 4))
+	c.Bound("depth", depth)
 	var names []string
-	for _, o := range ops {
+	for _, o := range c17Ops(absUniverse("sha1")) {
 		names = append(names, o.name)
 	}
 	c.Bound("ops", names)
-	var backends []c17Backend
-	backends = append(backends, c17Backend{"memory", func() storage.Storer { return memory.NewStorage() }})
 	type fsopt struct {
 		excl, mem bool
 		lot       int64
 		cache0    bool
+		format    string
+		depth     int
 	}
-	var opts []fsopt
-	for _, e := range []bool{false, true} {
-		for _, m := range []bool{false, true} {
-			for _, l := range []int64{0, 1} {
-				for _, c0 := range []bool{false, true} {
-					opts = append(opts, fsopt{e, m, l, c0})
+	fsBackend := func(o fsopt) c17Backend {
+		u := absUniverse(o.format)
+		return c17Backend{fmt.Sprintf("filesystem(Excl=%v,MemIdx=%v,LOT=%d,cache0=%v,%s)", o.excl, o.mem, o.lot, o.cache0, o.format), o.format, o.depth,
+			func() (storage.Storer, func() storage.Storer) {
+				w := mcfs.NewWorld()
+				var oc cache.Object = cache.NewObjectLRUDefault()
+				if o.cache0 {
+					oc = cache.NewObjectLRU(0)
+				}
+				st := filesystem.NewStorageWithOptions(w.View("/g", "g"), oc, filesystem.Options{ExclusiveAccess: o.excl, UseInMemoryIdx: o.mem, LargeObjectThreshold: o.lot, ObjectFormat: u.of})
+				return st, func() storage.Storer {
+					return filesystem.NewStorageWithOptions(w.View("/g", "g2"), cache.NewObjectLRUDefault(), filesystem.Options{ObjectFormat: u.of})
+				}
+			}}
+	}
+	memBackend := func(format string, d int) c17Backend {
+		u := absUniverse(format)
+		return c17Backend{"memory(" + format + ")", format, d, func() (storage.Storer, func() storage.Storer) {
+			return memory.NewStorage(memory.WithObjectFormat(u.of)), nil
+		}}
+	}
+	var backends []c17Backend
+	if !c.Thorough() {
+		// LOT=1 makes every non-empty object "large", LOT=20 splits the universe
+		backends = []c17Backend{
+			memBackend("sha1", depth),
+			fsBackend(fsopt{false, false, 0, false, "sha1", depth}),
+			fsBackend(fsopt{true, true, 1, true, "sha1", depth}),
+			fsBackend(fsopt{true, false, 20, false, "sha1", depth}),
+			fsBackend(fsopt{false, true, 1, false, "sha256", depth - 1}),
+			memBackend("sha256", depth-1),
+		}
+	} else {
+		// depth 4 on three backends, every option combination x format at depth 3
+		backends = []c17Backend{
+			memBackend("sha1", depth),
+			fsBackend(fsopt{false, false, 0, false, "sha1", depth}),
+			fsBackend(fsopt{true, true, 20, true, "sha256", depth}),
+			memBackend("sha256", depth-1),
+		}
+		for _, f := range []string{"sha1", "sha256"} {
+			for _, e := range []bool{false, true} {
+				for _, m := range []bool{false, true} {
+					for _, l := range []int64{0, 1, 20} {
+						for _, c0 := range []bool{false, true} {
+							backends = append(backends, fsBackend(fsopt{e, m, l, c0, f, depth - 1}))
+						}
+					}
 				}
 			}
 		}
 	}
-	if !c.Thorough() {
-		opts = []fsopt{{false, false, 0, false}, {true, true, 1, true}, {true, false, 0, false}, {false, true, 1, false}}
-	}
-	for _, o := range opts {
-		o := o
-		backends = append(backends, c17Backend{fmt.Sprintf("filesystem(Excl=%v,MemIdx=%v,LOT=%d,cache0=%v)", o.excl, o.mem, o.lot, o.cache0), func() storage.Storer {
-			w := mcfs.NewWorld()
-			var oc cache.Object = cache.NewObjectLRUDefault()
-			if o.cache0 {
-				oc = cache.NewObjectLRU(0)
-			}
-			return filesystem.NewStorageWithOptions(w.View("/g", "g"), oc, filesystem.Options{ExclusiveAccess: o.excl, UseInMemoryIdx: o.mem, LargeObjectThreshold: o.lot})
-		}})
-	}
 	var bn []string
 	for _, b := range backends {
-		bn = append(bn, b.name)
+		bn = append(bn, fmt.Sprintf("%s depth=%d", b.name, b.depth))
 	}
 	c.Bound("backends", bn)
-	c.SetRule("all histories up to depth over {SetRef, CheckAndSet (cur/stale/absent), RemoveRef, SetObject, SetIndex, SetShallow, SetConfig, AppendReflog, DeleteReflog, PackRefs} on every backend (memory; filesystem on mcfs under option combinations), each preloaded with the same content; after every history every point read, listing, typed/untyped object read, index, shallow, config and reflog must equal the abstract repository model including the error kinds for missing data (ErrReferenceNotFound / ErrObjectNotFound); since every backend is compared with the same model, all backends agree with each other; every history replayed on fresh instances; distinct = distinct model states x backends")
-	c.Assume("sha1 object format only; D/F-conflicting reference names excluded (C15 decides those); error kind of a failed CheckAndSet left open; iteration order compared as a set")
+	c.SetRule("all histories up to the backend's depth over the shared menu {ReadAll (a full mid-history read compared with the model, so that later writes meet warm caches and lists), SetRef/SetSymRef (retarget, detach HEAD, hash->symbolic, nested name), CheckAndSet (current/stale/absent/old=nil/symbolic old), RemoveRef, SetObject (new, already loose, already packed, commit), WritePack via packfile.UpdateObjectStorage (blobs+tag), SetIndex (entry/empty), SetShallow (value/empty), SetConfig, AppendReflog (two names), DeleteReflog} plus PackRefs and Module(m).SetRef on every backend (memory; filesystem on mcfs under option combinations; sha1 and sha256), each preloaded through the same calls with hash/symbolic refs, loose objects (one empty), a pack (blob+tree), an index, a shallow list, a config and a reflog; after every history every point read, listing, object has/size/untyped/typed/wrong-typed/repeated read with type, size and content, listing per object type with multiplicity, abbreviated-id expansion (HashesWithPrefix or the scan Repository.ResolveRevision falls back to) for empty/1-byte/3-byte/full prefixes, index entries, shallow, config, reflogs and the module reference must equal the abstract repository model including the error kinds for missing data (ErrReferenceNotFound / ErrObjectNotFound), both through the instance that ran the history and (filesystem) through a freshly opened default-option instance over the same files; since every backend is compared with the same model, all backends agree with each other; every history replayed on fresh instances; distinct = distinct model states x backends")
+	c.Assume("D/F-conflicting reference names excluded (C15 decides those); error kind of a failed CheckAndSet left open; CheckAndSet with a symbolic old value against a symbolic reference with another target left open; iteration order compared as a multiset; CountLooseRefs not compared (memory has no loose/packed distinction); IndexCache option left at its default (C20)")
 	total := histx.Result{}
 	for _, b := range backends {
 		b := b
-		sp := histx.Spec{Name: "C17/" + b.name, OpNames: names, Depth: depth, NoDedup: true,
+		u := absUniverse(b.format)
+		ops := c17Ops(u)
+		sp := histx.Spec{Name: "C17/" + b.name, OpNames: names, Depth: b.depth, NoDedup: true,
 			New: func() histx.Sys {
-				st := b.mk()
-				m := preloadRepo(st)
-				_, hasRL := st.(interface {
-					Reflog(plumbing.ReferenceName) ([]*reflog.Entry, error)
-				})
+				st, reopen := b.mk()
+				m := preloadRepo(u, st)
+				_, hasRL := st.(reflogStorer)
 				if !hasRL {
 					m.reflog = map[string][]string{}
 				}
-				return &c17Sys{st: st, model: m, ops: ops, hasRL: hasRL}
+				return &c17Sys{u: u, st: st, reopen: reopen, model: m, ops: ops, hasRL: hasRL}
 			},
 			Classify: func(hist []string, where, e, g string) string {
 				kind := b.name
 				if i := strings.IndexByte(kind, '('); i > 0 {
 					kind = kind[:i]
+				}
+				if where == "result of "+absReadAllOp {
+					return kind + " | " + absDiff(e, g)
 				}
 				if strings.HasPrefix(where, "result of") {
 					opk := where[len("result of "):]
@@ -126,7 +208,7 @@ func runC17(c *fw.Ctx) {
 					}
 					return fmt.Sprintf("%s | %s returns %s, contract says %s", kind, opk, g, e)
 				}
-				return kind + " | " + diffLines(e, g)
+				return kind + " | " + absDiff(e, g)
 			},
 		}
 		res := histx.Run(c, sp)
